@@ -74,11 +74,12 @@ std::string log_text( unsigned from = 0 )
 
 // ---------------------------------------------------------------------------------------------------------------------
 // control PDUs of the bursts
-enum pdu_kind { P_REJ, P_UNK, P_VER, P_FEAT, P_UPD, P_TERM, P_KINDS, P_MAP = P_KINDS /* not part of the burst product of part B */ };
-const char* pdu_name( int k ) { static const char* n[] = { "REJECT_IND", "UNKNOWN_RSP", "VERSION_IND", "FEATURE_REQ", "CONNECTION_UPDATE_IND", "TERMINATE_IND", "CHANNEL_MAP_IND" }; return n[ k ]; }
+enum pdu_kind { P_REJ, P_UNK, P_VER, P_FEAT, P_UPD, P_TERM, P_KINDS, P_MAP = P_KINDS, P_UPD_REFUSED /* both not part of the burst product of part B */ };
+const char* pdu_name( int k ) { static const char* n[] = { "REJECT_IND", "UNKNOWN_RSP", "VERSION_IND", "FEATURE_REQ", "CONNECTION_UPDATE_IND", "TERMINATE_IND", "CHANNEL_MAP_IND", "CONNECTION_UPDATE_IND(timeout 33 s)" }; return n[ k ]; }
 
 constexpr std::uint16_t interval_1 = 0x18, interval_2 = 0x20, supervision = 0x14;   // 30 ms, 40 ms, 200 ms
 constexpr std::uint8_t  terminate_reason = 0x13;
+constexpr std::uint16_t refused_interval = 0x30, refused_timeout = 3300;   // 33 s: well formed PDU, parameters refused at the instant
 
 struct burst { std::uint8_t n; std::uint8_t k[ 6 ]; };
 
@@ -108,6 +109,9 @@ bool deliver( const burst& b )
         case P_FEAT: { const std::uint8_t c[] = { 0x08, 0xff, 0xff, 0xff, 0xff, 0xff, 0xff, 0xff, 0xff }; d[ 1 ] = sizeof c; std::memcpy( d + 2, c, sizeof c ); } break;
         case P_UPD:  { const std::uint8_t c[] = { 0x00, 1, 0, 0, std::uint8_t( new_interval ), std::uint8_t( new_interval >> 8 ), 0, 0, std::uint8_t( supervision ), 0, std::uint8_t( instant ), std::uint8_t( instant >> 8 ) };
                        d[ 1 ] = sizeof c; std::memcpy( d + 2, c, sizeof c ); } break;
+        case P_UPD_REFUSED:
+                     { const std::uint8_t c[] = { 0x00, 1, 0, 0, std::uint8_t( refused_interval ), 0, 0, 0, std::uint8_t( refused_timeout ), std::uint8_t( refused_timeout >> 8 ), std::uint8_t( instant ), std::uint8_t( instant >> 8 ) };
+                       d[ 1 ] = sizeof c; std::memcpy( d + 2, c, sizeof c ); } break;
         case P_MAP:  { const std::uint8_t c[] = { 0x01, 0xff, 0xf7, 0xff, 0xff, 0x1f, std::uint8_t( instant ), std::uint8_t( instant >> 8 ) }; d[ 1 ] = sizeof c; std::memcpy( d + 2, c, sizeof c ); } break;
         case P_TERM: { const std::uint8_t c[] = { 0x02, terminate_reason }; d[ 1 ] = sizeof c; std::memcpy( d + 2, c, sizeof c ); } break;
         }
@@ -123,6 +127,7 @@ struct Ref
     std::uint8_t  phase;              // 0 advertising, 1 connection requested (no event yet), 2 connected, 3 stalled (nothing scheduled)
     std::uint8_t  last_adv_timeout, foreign_tried;
     std::uint8_t  f_term, f_disconnect, f_missed, f_update;     // causes of a close seen in this connection
+    std::uint8_t  f_refused_update;   // an update with unusable parameters was delivered: the link may be closed at its instant
     std::uint8_t  events_in_connection;
     std::uint32_t accepted;           // CONNECT_INDs the link layer accepted
     std::uint32_t log_checked;        // callbacks already judged
@@ -204,6 +209,8 @@ struct Judge
             if ( ref.f_update ) ok = ok || r == 0x28;
         }
         if ( ref.f_disconnect ) ok = ok || r == 0x16 || r == 0x22;
+        // the reason for refusing an update at its instant is not specified here (the implementation uses its default 0x08)
+        if ( ref.f_refused_update ) ok = ok || r == 0x08 || r == 0x28 || r == 0x1e || r == 0x3b;
         if ( ok ) { c.cls( mc::fmt( "closed(0x%02x)", r ) ); return true; }
         c.fail( std::string( "closed:wrong-reason:" ) + ( missed_step ? "supervision-timeout" : ref.f_disconnect ? "local-disconnect" : "connection-event" ),
                 mc::fmt( "closed with reason 0x%02x %s; causes seen in this connection: terminate %d, local disconnect %d, missed events %d, update / channel map %d", r,
@@ -244,6 +251,7 @@ struct World
         bursts.push_back( { 5, { P_REJ, P_REJ, P_REJ, P_REJ, P_TERM } } );
         bursts.push_back( { 6, { P_UNK, P_VER, P_FEAT, P_UPD, P_TERM, P_REJ } } );
         bursts.push_back( { 1, { P_MAP } } );
+        bursts.push_back( { 1, { P_UPD_REFUSED } } );
     }
 
     int num_events() const { return EV_FIRST_BURST + int( bursts.size() ); }
@@ -275,14 +283,23 @@ struct World
     }
 
     // after a step in a connection
-    void after_connection_step( Judge& j, mc::Ctx& c, bool event_happened )
+    void after_connection_step( Judge& j, mc::Ctx& c, bool event_happened, bool several_events = false )
     {
         if ( !j.order() ) return;
+        // ll_connection_changed only for an update that took effect: never with refused parameters, and (in a step of one
+        // radio callback) the connection continues
+        for ( std::uint32_t i = j.log_before; i < rec.n && i < recorder::max_log; ++i )
+            if ( rec.kind[ i ] == CB_CHANGED && ( rec.arg[ i ] == refused_interval || ( !several_events && j.advertising_again() ) ) )
+            {
+                c.fail( "changed-reported-for-refused-update", mc::fmt( "ll_connection_changed( interval %u ) was reported, the update did not take effect%s; log %s", rec.arg[ i ],
+                                                                         j.advertising_again() ? " (the link was closed in the same step)" : "", log_text().c_str() ) );
+                return;
+            }
         if ( j.advertising_again() )
         {
             if ( !j.ended() ) return;
             ref.phase = 0; ref.last = 0; ref.last_adv_timeout = 0; ref.foreign_tried = 0;
-            ref.f_term = ref.f_disconnect = ref.f_missed = ref.f_update = 0; ref.events_in_connection = 0;
+            ref.f_term = ref.f_disconnect = ref.f_missed = ref.f_update = ref.f_refused_update = 0; ref.events_in_connection = 0;
             return;
         }
         if ( ref.last == CB_CLOSED || ref.last == CB_ATTEMPT_TIMEOUT )
@@ -383,7 +400,7 @@ struct World
         default:
         {
             const burst& b = bursts[ ev - EV_FIRST_BURST ];
-            for ( unsigned i = 0; i != b.n; ++i ) { if ( b.k[ i ] == P_TERM ) ref.f_term = 1; if ( b.k[ i ] == P_UPD || b.k[ i ] == P_MAP ) ref.f_update = 1; }
+            for ( unsigned i = 0; i != b.n; ++i ) { if ( b.k[ i ] == P_TERM ) ref.f_term = 1; if ( b.k[ i ] == P_UPD || b.k[ i ] == P_MAP ) ref.f_update = 1; if ( b.k[ i ] == P_UPD_REFUSED ) ref.f_update = ref.f_refused_update = 1; }
             if ( !deliver( b ) )
             {   // only happens while received control PDUs pile up behind a deferred LL_CONNECTION_UPDATE_IND that never takes effect
                 // (instant handling, C21): the central would retransmit later - outside of this world, the branch ends here
@@ -394,7 +411,7 @@ struct World
             break;
         }
         }
-        after_connection_step( j, c, event_happened );
+        after_connection_step( j, c, event_happened, ev == EV_LOSE );
         c.obs = log_text();
         return true;
     }
